@@ -2326,7 +2326,7 @@ namespace adept {
       do {
 	// Innermost loop - note that the counter is index, not max_index
 	for (Index max_index = index + dimensions_[Rank-1]*offset_[Rank-1];
-	     index < max_index;
+	     index != max_index;
 	     index += offset_[Rank-1]) {
 	  vec.push_back(gradient_ind + index);
 	}
